@@ -105,6 +105,7 @@ type Sim struct {
 	conns     []*simConn
 	connSeq   int
 	connCount map[string]int
+	sndWindow int // >0: server-side writes block while this many bytes are undelivered
 	actors    []*Actor
 	gmap      map[uint64]*ginfo // goroutine id -> identity
 
@@ -425,6 +426,12 @@ func (s *Sim) logHash() uint64 {
 }
 
 // drawWeights sets per-run action weights swarm style.
+// drawNet draws the run's network knobs (recorded by name, so older replay files keep their
+// meaning): the send window after which a server-side Write blocks until delivery.
+func (s *Sim) drawNet(knob func(string, int) int) {
+	s.sndWindow = []int{0, 0, 1, 300, 5000}[knob("sndwin", 5)]
+}
+
 func (s *Sim) drawWeights() {
 	opts := []int{1, 3, 10, 30}
 	for k := range s.weights {
